@@ -88,9 +88,9 @@ fn exec_edge(v: &Value, nh: usize, maxbufs: usize, statics: &[Vec<u8>], variants
             let end_errs = pool.finish();
             let mut diffs = vec![];
             diff_fields(exp_o, &got_o, "o", &mut diffs);
-            let got_c = json!({"cls":r.cls,"val":r.val,"msg":r.msg,"dA":r.d_a,"dR":r.d_r,"dD":r.d_d,"inj":r.inj,"nreq":r.nreq,"shim":r.shim});
+            let got_c = json!({"cls":r.cls,"val":r.val,"msg":r.msg,"dA":r.d_a,"dR":r.d_r,"dD":r.d_d,"inj":r.inj,"nreq":r.nreq,"shim":r.shim,"xA":r.x_a});
             let mut exp_c2 = json!({});
-            for k in ["cls", "val", "msg", "dA", "dR", "dD", "inj", "nreq", "shim"] {
+            for k in ["cls", "val", "msg", "dA", "dR", "dD", "inj", "nreq", "shim", "xA"] {
                 exp_c2[k] = exp_c[k].clone();
             }
             diff_fields(&exp_c2, &got_c, "c", &mut diffs);
